@@ -48,7 +48,7 @@ func wildcardChars(c *Ctx, rule, fnName string) {
 		return
 	}
 	seen := map[int64]bool{}
-	eng.InstrsShallow(fn, func(in ssa.Instruction) {
+	eng.Instrs(fn, func(in ssa.Instruction) {
 		bo, ok := in.(*ssa.BinOp)
 		if !ok || (bo.Op != token.EQL && bo.Op != token.NEQ) {
 			return
@@ -91,7 +91,7 @@ func wildcardChars(c *Ctx, rule, fnName string) {
 	// answer true is unreachable, and when one of them does (and the character
 	// is not a backslash) the scan does not move on to the next character
 	var tests, escs []*ssa.BinOp
-	eng.InstrsShallow(fn, func(in ssa.Instruction) {
+	eng.Instrs(fn, func(in ssa.Instruction) {
 		bo, ok := in.(*ssa.BinOp)
 		if !ok || (bo.Op != token.EQL && bo.Op != token.NEQ) {
 			return
